@@ -27,3 +27,6 @@ open Cst.C02
 #print axioms Cst.Gen.nv_prev_before
 #print axioms Cst.Gen.nv_next_sibling
 #print axioms Cst.Gen.nv_prev_sibling
+#print axioms Cst.Gen.tk_siblings
+#print axioms Cst.Gen.tk_green
+#print axioms Cst.Gen.tk_kinds
